@@ -1793,6 +1793,7 @@ pub(crate) struct SelectionVector {
 }
 
 impl SelectionVector {
+    #[allow(dead_code)] // Used by tests for SIMD filtering verification
     pub fn all(row_count: usize) -> Self {
         let words = simd::bitmap_words(row_count);
         let mut bitmap = vec![!0u64; words];
@@ -6297,14 +6298,12 @@ impl RelationalEngine {
         condition: &Condition,
     ) -> Option<(SelectionVector, usize)> {
         match condition {
-            Condition::True => {
-                // Get row count from slab
-                let row_count = self.slab().row_count(table).ok()?;
-                Some((SelectionVector::all(row_count), row_count))
-            },
+            // `True` has no column to take the slot count / alive bitmap from (the slab's
+            // `row_count` is the number of *live* rows, not of slots): row path.
+            Condition::True => None,
 
             Condition::Eq(col, Value::Int(val)) => {
-                let (values, alive_words, _null_words) =
+                let (values, alive_words, null_words) =
                     self.slab().get_int_column(table, col).ok()?;
                 let row_count = values.len();
                 if row_count == 0 {
@@ -6312,13 +6311,14 @@ impl RelationalEngine {
                 }
                 let mut bitmap = vec![0u64; simd::bitmap_words(row_count)];
                 simd::filter_eq_i64(&values, *val, &mut bitmap);
+                Self::apply_null_mask(&mut bitmap, &null_words, false);
                 // AND with alive bitmap to exclude deleted rows
                 Self::apply_alive_mask(&mut bitmap, &alive_words);
                 Some((SelectionVector::from_bitmap(bitmap, row_count), row_count))
             },
 
             Condition::Ne(col, Value::Int(val)) => {
-                let (values, alive_words, _null_words) =
+                let (values, alive_words, null_words) =
                     self.slab().get_int_column(table, col).ok()?;
                 let row_count = values.len();
                 if row_count == 0 {
@@ -6326,12 +6326,13 @@ impl RelationalEngine {
                 }
                 let mut bitmap = vec![0u64; simd::bitmap_words(row_count)];
                 simd::filter_ne_i64(&values, *val, &mut bitmap);
+                Self::apply_null_mask(&mut bitmap, &null_words, true);
                 Self::apply_alive_mask(&mut bitmap, &alive_words);
                 Some((SelectionVector::from_bitmap(bitmap, row_count), row_count))
             },
 
             Condition::Lt(col, Value::Int(val)) => {
-                let (values, alive_words, _null_words) =
+                let (values, alive_words, null_words) =
                     self.slab().get_int_column(table, col).ok()?;
                 let row_count = values.len();
                 if row_count == 0 {
@@ -6339,12 +6340,13 @@ impl RelationalEngine {
                 }
                 let mut bitmap = vec![0u64; simd::bitmap_words(row_count)];
                 simd::filter_lt_i64(&values, *val, &mut bitmap);
+                Self::apply_null_mask(&mut bitmap, &null_words, false);
                 Self::apply_alive_mask(&mut bitmap, &alive_words);
                 Some((SelectionVector::from_bitmap(bitmap, row_count), row_count))
             },
 
             Condition::Le(col, Value::Int(val)) => {
-                let (values, alive_words, _null_words) =
+                let (values, alive_words, null_words) =
                     self.slab().get_int_column(table, col).ok()?;
                 let row_count = values.len();
                 if row_count == 0 {
@@ -6352,12 +6354,13 @@ impl RelationalEngine {
                 }
                 let mut bitmap = vec![0u64; simd::bitmap_words(row_count)];
                 simd::filter_le_i64(&values, *val, &mut bitmap);
+                Self::apply_null_mask(&mut bitmap, &null_words, false);
                 Self::apply_alive_mask(&mut bitmap, &alive_words);
                 Some((SelectionVector::from_bitmap(bitmap, row_count), row_count))
             },
 
             Condition::Gt(col, Value::Int(val)) => {
-                let (values, alive_words, _null_words) =
+                let (values, alive_words, null_words) =
                     self.slab().get_int_column(table, col).ok()?;
                 let row_count = values.len();
                 if row_count == 0 {
@@ -6365,12 +6368,13 @@ impl RelationalEngine {
                 }
                 let mut bitmap = vec![0u64; simd::bitmap_words(row_count)];
                 simd::filter_gt_i64(&values, *val, &mut bitmap);
+                Self::apply_null_mask(&mut bitmap, &null_words, false);
                 Self::apply_alive_mask(&mut bitmap, &alive_words);
                 Some((SelectionVector::from_bitmap(bitmap, row_count), row_count))
             },
 
             Condition::Ge(col, Value::Int(val)) => {
-                let (values, alive_words, _null_words) =
+                let (values, alive_words, null_words) =
                     self.slab().get_int_column(table, col).ok()?;
                 let row_count = values.len();
                 if row_count == 0 {
@@ -6378,12 +6382,13 @@ impl RelationalEngine {
                 }
                 let mut bitmap = vec![0u64; simd::bitmap_words(row_count)];
                 simd::filter_ge_i64(&values, *val, &mut bitmap);
+                Self::apply_null_mask(&mut bitmap, &null_words, false);
                 Self::apply_alive_mask(&mut bitmap, &alive_words);
                 Some((SelectionVector::from_bitmap(bitmap, row_count), row_count))
             },
 
             Condition::Lt(col, Value::Float(val)) => {
-                let (values, alive_words, _null_words) =
+                let (values, alive_words, null_words) =
                     self.slab().get_float_column(table, col).ok()?;
                 let row_count = values.len();
                 if row_count == 0 {
@@ -6391,12 +6396,13 @@ impl RelationalEngine {
                 }
                 let mut bitmap = vec![0u64; simd::bitmap_words(row_count)];
                 simd::filter_lt_f64(&values, *val, &mut bitmap);
+                Self::apply_null_mask(&mut bitmap, &null_words, false);
                 Self::apply_alive_mask(&mut bitmap, &alive_words);
                 Some((SelectionVector::from_bitmap(bitmap, row_count), row_count))
             },
 
             Condition::Gt(col, Value::Float(val)) => {
-                let (values, alive_words, _null_words) =
+                let (values, alive_words, null_words) =
                     self.slab().get_float_column(table, col).ok()?;
                 let row_count = values.len();
                 if row_count == 0 {
@@ -6404,12 +6410,13 @@ impl RelationalEngine {
                 }
                 let mut bitmap = vec![0u64; simd::bitmap_words(row_count)];
                 simd::filter_gt_f64(&values, *val, &mut bitmap);
+                Self::apply_null_mask(&mut bitmap, &null_words, false);
                 Self::apply_alive_mask(&mut bitmap, &alive_words);
                 Some((SelectionVector::from_bitmap(bitmap, row_count), row_count))
             },
 
             Condition::Eq(col, Value::Float(val)) => {
-                let (values, alive_words, _null_words) =
+                let (values, alive_words, null_words) =
                     self.slab().get_float_column(table, col).ok()?;
                 let row_count = values.len();
                 if row_count == 0 {
@@ -6417,6 +6424,7 @@ impl RelationalEngine {
                 }
                 let mut bitmap = vec![0u64; simd::bitmap_words(row_count)];
                 simd::filter_eq_f64(&values, *val, &mut bitmap);
+                Self::apply_null_mask(&mut bitmap, &null_words, false);
                 Self::apply_alive_mask(&mut bitmap, &alive_words);
                 Some((SelectionVector::from_bitmap(bitmap, row_count), row_count))
             },
@@ -6435,6 +6443,19 @@ impl RelationalEngine {
 
             // Unsupported conditions - fall back to legacy path
             _ => None,
+        }
+    }
+
+    /// A NULL slot still holds a stored word (0, or the value before an update to NULL): it never
+    /// satisfies `=`, `<`, `<=`, `>`, `>=` and always satisfies `!=` (`null_is_match`).
+    fn apply_null_mask(bitmap: &mut [u64], null_words: &[u64], null_is_match: bool) {
+        for (i, word) in bitmap.iter_mut().enumerate() {
+            let nulls = null_words.get(i).copied().unwrap_or(0);
+            if null_is_match {
+                *word |= nulls;
+            } else {
+                *word &= !nulls;
+            }
         }
     }
 
